@@ -85,3 +85,46 @@ Theorem c04_maximal_run_complete : forall s0 P ls g,
   forall p, lead s0 p = true <-> In p (gtaken (ginit s0 P) ls).
 Proof. exact maximal_run_complete. Qed.
 Print Assumptions c04_maximal_run_complete.
+
+From SLU Require Import SchedBase SchedPipe SchedGen SchedTie.
+
+(* THE SOURCE TIE.  gen_pxgstrf_scheduler (SchedGen.v) is re-translated from SRC/pxgstrf_scheduler.c on every run; gen_sched_state
+   (SchedTie.v) feeds it the fields of a model state and packs its result into a model state again.  For every state and finished
+   panel that pass the executable index guard sched_guard (proved at every scheduler call of every reachable state:
+   SchedGuard.sched_guard_reachable) and every fuel >= fuel_of s = n + 2, the translated function does not run out of fuel and
+   returns exactly what the model's sched returns: the new shared state field by field, the panel handed out, and *bcol
+   (which the routine leaves at its old value b0 when it hands out no panel).  So the theorems above, stated on the model, are
+   statements about what the C source says now; an edit of the source that changes a decision or a stored value breaks this proof. *)
+Theorem c04_source_scheduler_is_model : forall s cur b0 fuel,
+  sched_guard s cur = true -> (fuel_of s <= fuel)%nat ->
+  gen_sched_state s cur b0 fuel = Some (let '(s', j, b) := sched s cur in (s', j, if j =? c_EMPTY then b0 else b)).
+Proof. exact sched_tie_state. Qed.
+Print Assumptions c04_source_scheduler_is_model.
+
+(* the same for every scheduler call of every reachable state of the protocol (no guard hypothesis left) *)
+Theorem c04_source_scheduler_is_model_reachable : forall s0 P g t cur b0 fuel,
+  reachable s0 P g -> 0 <= t < tlen (thr g) -> thr_get (thr g) t = (M_READY, cur) -> (fuel_of (gs g) <= fuel)%nat ->
+  gen_sched_state (gs g) cur b0 fuel =
+  Some (let '(s', j, b) := sched (gs g) cur in (s', j, if j =? c_EMPTY then b0 else b)).
+Proof. exact sched_tie_reachable. Qed.
+Print Assumptions c04_source_scheduler_is_model_reachable.
+
+(* c04_queue_bounds restated for the translated function: the state the translated scheduler leaves, called by a thread of a
+   reachable state, is again a reachable state of the protocol, and its task queue is within its n slots *)
+Theorem c04_source_queue_bounds : forall s0 P g t cur b0 fuel s' j b,
+  reachable s0 P g -> 0 <= t < tlen (thr g) -> thr_get (thr g) t = (M_READY, cur) -> (fuel_of (gs g) <= fuel)%nat ->
+  gen_sched_state (gs g) cur b0 fuel = Some (s', j, b) ->
+  0 <= qhead s' <= qtail s' /\ qtail s' <= sn s' /\ qcount s' = qtail s' - qhead s'.
+Proof. exact source_queue_bounds. Qed.
+Print Assumptions c04_source_queue_bounds.
+
+(* c03_pipeline_handout restated for the translated function: whenever the translated scheduler hands panel j with bcol b to a
+   thread of a reachable state, b is a descendant-or-self panel of j that is not DONE and whose children are all DONE, and the
+   proper descendants of j that are not DONE are exactly the chain of ancestors of b below j *)
+Theorem c04_source_pipeline_handout : forall s0 P g t cur b0 fuel s' j b,
+  reachable s0 P g -> 0 <= t < tlen (thr g) -> thr_get (thr g) t = (M_READY, cur) -> (fuel_of (gs g) <= fuel)%nat ->
+  gen_sched_state (gs g) cur b0 fuel = Some (s', j, b) -> j <> c_EMPTY ->
+  anc s' b j /\ st s' b <> c_DONE /\ (forall c, kid s' b c = true -> st s' c = c_DONE) /\
+  forall x, anc s' x j -> x <> j -> st s' x <= c_BUSY /\ (st s' x <> c_DONE -> anc s' b x).
+Proof. exact source_pipeline_handout. Qed.
+Print Assumptions c04_source_pipeline_handout.
